@@ -9,13 +9,18 @@
   equal: the only freedom `Condition.__eq__` has beyond D16 is the order of keyword arguments (dict
   equality) and `ConditionBinaryOp.__eq__` the order of the two children.
 
-  Two genuine exceptions were found while proving the behavioural half, both are behavioural differences
-  of conditions that compare `==` (details and counterexamples above `C14_same_behaviour`):
+  Two genuine exceptions were found while proving the behavioural half (details and counterexamples
+  above `C14_same_behaviour`):
   * data WITH paths (`data_has_paths=True`, i.e. the call `Rule.test` makes): the first child of a
-    combination strips the paths, so `Index.equal_to(0) & Value.equal_to(1)` raises `TypeError` where
-    the equal `Value.equal_to(1) & Index.equal_to(0)` returns a verdict;
+    combination strips the paths and used to unpack `datum, _ = datum` from whatever it reads, so
+    `Index.equal_to(0) & Value.equal_to(1)` raised `TypeError` where the equal
+    `Value.equal_to(1) & Index.equal_to(0)` returned a verdict.  REPAIRED in the library (only a
+    value-reading condition unpacks; generated flag `filterUnpacksValuesOnly`, guarded by
+    `C14_filter_unpacks_values_only`); the theorem now holds for data with paths unconditionally, and the
+    former counterexamples are kept as positive examples;
   * two data-path keyword arguments whose resolutions fail with different exceptions, one inside and
-    one outside the `except` tuple of `Condition._filter`: the first in keyword order decides.
+    one outside the `except` tuple of `Condition._filter`: the first in keyword order decides
+    (hypothesis `KwErrAgree`, still needed).
   What does NOT depend on the keyword order, although it looked suspicious: Python's argument binding
   (by name), and the loop of `items_contain(**items)` over the collected dict (it returns `False` at
   the first missing / different item and fails in the same way at any item of a non-mapping).
@@ -137,31 +142,33 @@ theorem C14_same_behaviour_plain (c d : Cond RArg) (h : CondSame c d) (hk : KwEr
     · simp only [FD.preErr, pa, pb]; exact zipWith_or_comm _ _
     · simp only [FD.cErr, ca, cb]; exact zipWith_or_comm _ _
 
--- STATEMENT CHANGED: two hypotheses added; without either the statement is false (both counterexamples
--- are evaluated on the model in the `example`s below the theorem).
+/-- guard: the model (and the library it is generated from) unpacks `datum, _ = datum` only in
+    value-reading conditions; if the generated flag ever flips, this file stops building -/
+theorem C14_filter_unpacks_values_only : filterUnpacksValuesOnly = true := rfl
+
+-- STATEMENT CHANGED: hypothesis `hk : KwErrAgree c` added; without it the statement is false (the
+-- counterexample is evaluated on the model in an `example` below the theorem).
 --
--- (1) `hv : hp = true → ValuesFirst c ∧ ValuesFirst d` – for data that carries paths the left-most single
---     condition of both trees must read the values.  `ConditionBinaryOp._filter` hands
---     `data_has_paths=True` to its FIRST child only; that child unpacks `datum, _ = datum` from what it
---     reads and strips the paths from the values.  A key / index reading condition in first position
---     therefore unpacks the *keys*, in second position it reads them as they are.  Counterexample
---     (data `[(1, "p")]` as `Rule.test` builds it, `hp = true`):
---       `Value.equal_to(1) & Index.equal_to(0)` gives `[True]`,
---       `Index.equal_to(0) & Value.equal_to(1)` raises `TypeError` (cannot unpack the index `0`);
---     and with a mapping whose key is the pair `("a", "b")`: `Key.equal_to("a") & Value.equal_to(1)`
---     gives `[True]` (the key is unpacked to `"a"`), `Value.equal_to(1) & Key.equal_to("a")` gives `[False]`.
---     These are behavioural differences of conditions that compare equal – a defect of the library, not
---     of the statement.  For `hp = false` nothing is assumed.
--- (2) `hk : KwErrAgree c` – `resolveKw` reports the FIRST failing data-path argument in keyword order, and
---     which `except` clause applies depends on the exception: with `lower` failing with `TypeError`
---     (caught: the item fails) and `upper` with `RuntimeError` (not caught: `_filter` raises),
---     `in_range(lower=…, upper=…)` records a callable error and `in_range(upper=…, lower=…)` raises.
---     The hypothesis is vacuous for literal arguments (`KwErrAgree_of_resolved`, `KwResolved_lit`) and
---     whenever at most one keyword argument of each single condition fails to resolve.
+-- `resolveKw` reports the FIRST failing data-path argument in keyword order, and which `except` clause
+-- applies depends on the exception: with `lower` failing with `TypeError` (caught: the item fails) and
+-- `upper` with `RuntimeError` (not caught: `_filter` raises), `in_range(lower=…, upper=…)` records a
+-- callable error and `in_range(upper=…, lower=…)` raises.  The hypothesis is vacuous for literal
+-- arguments (`KwErrAgree_of_resolved`, `KwResolved_lit`) and whenever at most one keyword argument of
+-- each single condition fails to resolve.
+--
+-- History: an earlier version also needed, for `hp = true`, that the left-most single condition of both
+-- trees reads the values (`ConditionBinaryOp._filter` hands `data_has_paths=True` to its FIRST child,
+-- which unpacked `datum, _ = datum` even from keys / indices: on `[(1, "p")]`,
+-- `Value.equal_to(1) & Index.equal_to(0)` gave `[True]` and the equal `Index.equal_to(0) & Value.equal_to(1)`
+-- raised `TypeError`).  That was a defect of the library; since its repair (guard
+-- `C14_filter_unpacks_values_only`) NO hypothesis on `hp`, on the returned `data'` or on `paths` is needed:
+-- whichever single condition comes first strips the paths from the shared data and returns them, a
+-- value-reading condition sees the stripped values and a key-reading one the untouched keys in either
+-- position (`C14B.filterAux_true_iff`).
 /-- … and **behave identically**: the same booleans for every item of every document (the per-item error
-    flags included), hence the same verdicts and the same failing nodes wherever they are used -/
+    flags included), the same path-stripped data and the same extracted paths, hence the same verdicts and
+    the same failing nodes wherever they are used -/
 theorem C14_same_behaviour (c d : Cond RArg) (h : CondSame c d) (hk : KwErrAgree c) (data : DataV) (hp : Bool)
-    (hv : hp = true → C14B.ValuesFirst c ∧ C14B.ValuesFirst d)
     (f : FD) (data' : DataV) (paths : Option (List PyVal))
     (hf : filterAux c data hp = .ok (f, data', paths)) :
     ∃ f', filterAux d data hp = .ok (f', data', paths) ∧ f'.result = f.result ∧
@@ -171,48 +178,63 @@ theorem C14_same_behaviour (c d : Cond RArg) (h : CondSame c d) (hk : KwErrAgree
     obtain ⟨rfl, rfl⟩ := filterAux_frame c data f data' paths hf
     exact C14_same_behaviour_plain c d h hk data' f hf
   | true =>
-    obtain ⟨hvc, hvd⟩ := hv rfl
-    obtain ⟨ps', hex, rfl, hf'⟩ := (C14B.filterAux_true_iff c hvc data f data' paths).1 hf
+    have hflag := C14_filter_unpacks_values_only
+    obtain ⟨ps', hex, rfl, hf'⟩ := (C14B.filterAux_true_iff hflag c data f data' paths).1 hf
     obtain ⟨f', hf'', e⟩ := C14_same_behaviour_plain c d h hk data' f hf'
-    exact ⟨f', (C14B.filterAux_true_iff d hvd data f' data' (some ps')).2 ⟨ps', hex, rfl, hf''⟩, e⟩
+    exact ⟨f', (C14B.filterAux_true_iff hflag d data f' data' (some ps')).2 ⟨ps', hex, rfl, hf''⟩, e⟩
 
-/-- literal arguments, data without paths: no side condition at all -/
-theorem C14_same_behaviour_lit (c d : Cond PyVal) (h : CondSame c.lit d.lit) (data : DataV) (f : FD)
-    (hf : filterAux c.lit data false = .ok (f, data, none)) :
-    ∃ f', filterAux d.lit data false = .ok (f', data, none) ∧ f'.result = f.result ∧
+/-- literal arguments: no side condition at all -/
+theorem C14_same_behaviour_lit (c d : Cond PyVal) (h : CondSame c.lit d.lit) (data : DataV) (hp : Bool) (f : FD)
+    (data' : DataV) (paths : Option (List PyVal)) (hf : filterAux c.lit data hp = .ok (f, data', paths)) :
+    ∃ f', filterAux d.lit data hp = .ok (f', data', paths) ∧ f'.result = f.result ∧
       f'.preErr = f.preErr ∧ f'.cErr = f.cErr :=
-  C14_same_behaviour_plain _ _ h (KwErrAgree_of_resolved _ (KwResolved_lit c)) data f hf
+  C14_same_behaviour _ _ h (KwErrAgree_of_resolved _ (KwResolved_lit c)) data hp f data' paths hf
 
-/-! #### the counterexamples, evaluated on the model -/
+/-! #### examples evaluated on the model: the former counterexamples for data with paths (now in
+     agreement), and the counterexample that remains -/
 
 /-- outcome of a filter as plain data: `none` = raised, else the three boolean lists -/
-def outcome (r : Except Exc (FD × DataV × Option (List PyVal))) : Option (List Bool × List Bool × List Bool) :=
+def outcome (r : Except Exc (FD × DataV × Option (List PyVal))) :
+    Option (List Bool × List Bool × List Bool) :=
   match r with
   | .ok (f, _, _) => some (f.result, f.preErr, f.cErr)
+  | .error _ => none
+
+/-- the path-stripped values and the extracted paths a filter returns (as strings, for kernel evaluation) -/
+def strOf : PyVal → String
+  | .int n => toString n
+  | .str s => s
+  | _ => "?"
+
+def stripped (r : Except Exc (FD × DataV × Option (List PyVal))) : Option (List String × Option (List String)) :=
+  match r with
+  | .ok (_, d, ps) => some (d.values.map strOf, ps.map (·.map strOf))
   | .error _ => none
 
 private def vEq1 : Cond RArg := .leaf { cls := .value, fn := "equal_to", args := [.ok (.int 1)], kwargs := [] }
 private def iEq0 : Cond RArg := .leaf { cls := .index, fn := "equal_to", args := [.ok (.int 0)], kwargs := [] }
 private def kEqA : Cond RArg := .leaf { cls := .key, fn := "equal_to", args := [.ok (.str "a")], kwargs := [] }
 
-/-- (1a) with paths, `Value & Index` gives a verdict and the equal `Index & Value` raises -/
+/-- (1a, formerly a counterexample) with paths, on `[(1, "p")]`: `Value & Index` and the equal
+    `Index & Value` (which used to raise `TypeError`) give the same verdict, data and paths -/
 example :
-    CondSame (.bin .and vEq1 iEq0) (.bin .and iEq0 vEq1) ∧ KwErrAgree (.bin .and vEq1 iEq0) ∧
+    CondSame (.bin .and vEq1 iEq0) (.bin .and iEq0 vEq1) ∧
     outcome (filterAux (.bin .and vEq1 iEq0) ⟨true, [.int 0], [.tuple [.int 1, .str "p"]]⟩ true)
       = some ([true], [false], [false]) ∧
-    outcome (filterAux (.bin .and iEq0 vEq1) ⟨true, [.int 0], [.tuple [.int 1, .str "p"]]⟩ true) = none := by
-  refine ⟨.crossed _ _ _ _ _ (.leaf _ _ _ _ _ (.refl _) (by simp)) (.leaf _ _ _ _ _ (.refl _) (by simp)), ?_, ?_, ?_⟩
-  · intro l hl
-    simp only [Cond.leaves, vEq1, iEq0, List.cons_append, List.nil_append, List.mem_cons, List.not_mem_nil,
-      or_false] at hl
-    rcases hl with rfl | rfl <;> intro _ _ _ _ h <;> cases h
-  · decide +kernel
-  · decide +kernel
+    outcome (filterAux (.bin .and iEq0 vEq1) ⟨true, [.int 0], [.tuple [.int 1, .str "p"]]⟩ true)
+      = some ([true], [false], [false]) ∧
+    stripped (filterAux (.bin .and vEq1 iEq0) ⟨true, [.int 0], [.tuple [.int 1, .str "p"]]⟩ true)
+      = some (["1"], some ["p"]) ∧
+    stripped (filterAux (.bin .and iEq0 vEq1) ⟨true, [.int 0], [.tuple [.int 1, .str "p"]]⟩ true)
+      = some (["1"], some ["p"]) := by
+  refine ⟨.crossed _ _ _ _ _ (.leaf _ _ _ _ _ (.refl _) (by simp)) (.leaf _ _ _ _ _ (.refl _) (by simp)),
+    ?_, ?_, ?_, ?_⟩ <;> decide +kernel
 
-/-- (1b) with paths and a mapping whose key is a pair, both return – different booleans -/
+/-- (1b, formerly a counterexample) with paths and a mapping whose key is the pair `("a", "b")`: the key
+    is no longer unpacked in first position; both orders give `[False]` -/
 example :
     outcome (filterAux (.bin .and kEqA vEq1) ⟨false, [.tuple [.str "a", .str "b"]], [.tuple [.int 1, .str "p"]]⟩ true)
-      = some ([true], [false], [false]) ∧
+      = some ([false], [false], [false]) ∧
     outcome (filterAux (.bin .and vEq1 kEqA) ⟨false, [.tuple [.str "a", .str "b"]], [.tuple [.int 1, .str "p"]]⟩ true)
       = some ([false], [false], [false]) := by
   constructor <;> decide +kernel
@@ -310,10 +332,11 @@ example : condEqLit exC exD = true :=
     rcases ha with rfl | rfl | rfl <;> exact pyEq_refl _ rfl)
 
 /-- … and whatever `exC` gives on a document, `exD` gives -/
-example (data : DataV) (f : FD) (hf : filterAux exC.lit data false = .ok (f, data, none)) :
-    ∃ f', filterAux exD.lit data false = .ok (f', data, none) ∧ f'.result = f.result ∧
+example (data : DataV) (hp : Bool) (f : FD) (data' : DataV) (paths : Option (List PyVal))
+    (hf : filterAux exC.lit data hp = .ok (f, data', paths)) :
+    ∃ f', filterAux exD.lit data hp = .ok (f', data', paths) ∧ f'.result = f.result ∧
       f'.preErr = f.preErr ∧ f'.cErr = f.cErr :=
-  C14_same_behaviour_lit exC exD exC_same_exD_lit data f hf
+  C14_same_behaviour_lit exC exD exC_same_exD_lit data hp f data' paths hf
 
 /-- the hypothesis is satisfiable: on the mapping `{"a": 3, "b": 7, "c": "x"}` both filters return, with
     the same three boolean lists (evaluated by the kernel) -/
